@@ -93,6 +93,7 @@ PROPS = {
                         B("election", "election", 40, 400)]},
     "C11": {"batches": [B("lease", "lease", 200, 2000), B("general", "general", 80, 800)]},
     "C12": {"batches": [B("lease", "lease", 200, 2000), B("general", "general", 80, 800)]},
+    "C13": {"batches": [B("routing", "routing", 220, 2200), B("routing_exposed_snapshots", "routing", 60, 600, masks=["batch_promote"])]},
     "C14": {"batches": [B("general", "general", 140, 1400), B("election", "election", 100, 1000), B("deadline", "deadline", 40, 400)]},
     "C16": {"batches": [B("exposed_snapshot", "snapshot", 120, 1200, masks=["batch_promote"]),
                         B("general_exposed", "general", 60, 600, masks=["batch_promote"])]},
